@@ -7,7 +7,7 @@ CfgParams == {[k |-> k, rule |-> r, max |-> m, evo |-> e, elitism |-> el, mutate
               \ {p \in [k : 1..3, rule : {"any", "sum"}, max : {16, 24, 40}, evo : {FALSE}, elitism : BOOLEAN, mutate_elite : BOOLEAN, target : BOOLEAN] :
                    p.elitism \/ p.mutate_elite}          \* without tournament / mutation the two flags are immaterial
 CfgLoops == {[kind |-> kd, ne |-> ne, ls |-> ls, evo |-> ev, batch |-> b, cap |-> 64] :
-               kd \in {"off", "on", "ma_off", "ma_on"}, ne \in {1, 2, 4}, ls \in {1, 2, 3, 8}, ev \in {8, 12}, b \in {4, 8}}
+               kd \in {"off", "on", "ma_off", "ma_on"}, ne \in {1, 2, 3, 4}, ls \in {1, 2, 3, 8}, ev \in {8, 10, 12}, b \in {4, 8}}
             \cup {[kind |-> kd, ne |-> 1, ls |-> ls, evo |-> ev, batch |-> b, cap |-> 64] :
                kd \in {"bandit", "offline"}, ls \in {1, 2}, ev \in {8, 12}, b \in {4, 8}}
 DumpCase == PrintT(<<"CASE", ToJson([lp |-> lp, par |-> par])>>)
